@@ -37,7 +37,8 @@ Fixpoint kind_complete2 (k : pkind) : bool :=
   end.
 
 (* the variant sites the reverse direction depends on *)
-Definition variant_complete (vr : variant) : bool := vr_year_pad vr && vr_sel_upper vr.
+(* vr_positional_none: Relationship / Sighting / StatementMarking.__init__ keep a falsy named argument (C03 finding) *)
+Definition variant_complete (vr : variant) : bool := vr_year_pad vr && vr_sel_upper vr && vr_positional_none vr.
 
 Section CompKinds.
   Variable vr : variant.
@@ -60,7 +61,13 @@ Section CompKinds.
   Proof. intros H j n _ Hv. eapply H; eauto. Qed.
 
   Lemma vc_flags : vr_year_pad vr = true /\ vr_sel_upper vr = true.
-  Proof. unfold variant_complete in Hvr. apply andb_true_iff in Hvr. exact Hvr. Qed.
+  Proof.
+    unfold variant_complete in Hvr. apply andb_true_iff in Hvr. destruct Hvr as [H _].
+    apply andb_true_iff in H. exact H.
+  Qed.
+
+  Lemma vc_pos : vr_positional_none vr = true.
+  Proof. unfold variant_complete in Hvr. apply andb_true_iff in Hvr. tauto. Qed.
 
   (* ---- FloatProperty ---- *)
   Lemma dec_same_refl a : dec_same a a.
